@@ -823,8 +823,8 @@ def coq_row_args(case, obs):
 
 
 C07_CLAUSES = ['announced_once', 'handed_on_once', 'unscheduled_once', 'not_collected_and_canceled',
-               'outcome_attached', 'announced_before_handed_on', 'exit_code_truthful']
-C08_EXEC_CLAUSES = ['named_end', 'canceled_means_stopped', 'later_met', 'bystanders_untouched']
+               'outcome_attached', 'announced_before_handed_on', 'exit_code_truthful', 'named_examined_after_launch']
+C08_EXEC_CLAUSES = ['named_end', 'canceled_means_stopped', 'later_met', 'bystanders_untouched', 'named_examined_after_launch']
 COQ_HEADER = 'From RP Require Import Exec.Model Exec.Oracle.'
 
 
